@@ -85,6 +85,13 @@ def run(c: Check):
                 and p["exp_a"]["classes"][p["exp_a"]["nodes"][p["node"]]["cls"]] == p["exp_b"]["classes"][p["exp_b"]["nodes"][p["node"]]["cls"]]:
             c.count("edit-had-no-effect")
             continue
+        if p["which"] == "full":
+            na, nb = p["exp_a"]["nodes"][p["node"]], p["exp_b"]["nodes"][p["node"]]
+            ida = lambda e, l: [json.dumps(e["nodes"][i], sort_keys=True) for i in l]
+            if (ida(p["exp_a"], na["init"]) == ida(p["exp_b"], nb["init"])
+                    and sorted(ida(p["exp_a"], na["pre"])) == sorted(ida(p["exp_b"], nb["pre"]))):
+                c.count("edit-had-no-effect")     # e.g. the task had already been submitted, or identical init tasks
+                continue
         c.nontrivial.add(json.dumps([p["a"], p["kind"], p["node"]], sort_keys=True))
         if fa == fb or (p["which"] == "raw" and ra == rb):
             c.violation(f"C03:collision:{p['kind']}",
